@@ -455,7 +455,7 @@ var c29srcName = []string{"flag", "env", "file2", "file1"}
 func TestVerif_C29(t *testing.T) {
 	run := verifkit.Start(t, "C29", "config")
 	defer run.Finish()
-	run.Rule("reflection enumerates every leaf setting of the loaded config struct; per setting: every presence combination of {flag, env} (cmdenv-tagged settings, each CmdEnv name of the tag) x {later file, earlier file} with pairwise distinct valid values drawn from the seed, expectation = first present of flag, env, later file, earlier file, documented default; explicit zero values in files; ${VAR} placements (whole, prefix/suffix, twice, inside list and map elements, in flag and env values) with VAR set / unset / set-empty for every string-valued setting; values that are invalid only after expansion or only through a flag/env; every flag and environment-variable name the metadata documents; non-trivial = a load in which at least two sources competed or an expansion happened; distinct = (setting, source combination/placement)")
+	run.Rule("reflection enumerates every leaf setting of the loaded config struct; per setting: every presence combination of {flag, env} (cmdenv-tagged settings, each CmdEnv name of the tag) x {later file, earlier file} with pairwise distinct valid values drawn from the seed, expectation = first present of flag, env, later file, earlier file, documented default; explicit zero values in files; ${VAR} placements (whole, prefix/suffix, twice, inside list and map elements, in flag and env values) with VAR set / unset / set-empty for every string-valued setting; the same references in the configuration in force after Reload (unchanged-content control, same setting with another variable, another setting changed, unset variable; validate and no-validate); values that are invalid only after expansion or only through a flag/env; every flag and environment-variable name the metadata documents; non-trivial = a load in which at least two sources competed or an expansion happened; distinct = (setting, source combination/placement)")
 	run.Assume("the process environment is set per load and restored; no REFINERY_* variable leaks in from outside (cleared at start)")
 	run.Assume("configMeta.yaml (from which config.md is generated) is the documentation of names and defaults; deprecated groups/fields (lastversion set) are not documented settings")
 
@@ -497,6 +497,9 @@ func TestVerif_C29(t *testing.T) {
 	c29zeros(t, run, fields)
 	run.Cases("expansion", rounds*len(fields), func(i int, rng *verifkit.Rand) {
 		c29expansion(t, run, rng, fields[i%len(fields)], run.Thorough())
+	})
+	run.Cases("expansion-after-reload", rounds*len(fields), func(i int, rng *verifkit.Rand) {
+		c29expansionReload(t, run, rng, fields[i%len(fields)], run.Thorough())
 	})
 	run.Cases("validation-vs-use", rounds*len(fields), func(i int, rng *verifkit.Rand) {
 		c29invalid(t, run, rng, fields[i%len(fields)])
@@ -1005,6 +1008,206 @@ func repeat(s string, n int) []any {
 		out[i] = s
 	}
 	return out
+}
+
+// ---- ${VAR} expansion in the configuration in force after a reload ------------------------
+
+type c29reloadCase struct {
+	Setting    string            `json:"setting"`
+	NoValidate bool              `json:"no_validate"`
+	Env        map[string]string `json:"env"`
+	Variant    string            `json:"variant"`
+	First      string            `json:"file_at_startup"`
+	Second     string            `json:"file_at_reload,omitempty"`
+	Expected   string            `json:"expected"`
+	Got        string            `json:"effective"`
+	ReloadErr  string            `json:"reload_error,omitempty"`
+}
+
+// c29expansionReload: start on a file whose setting holds ${VAR1}; check; Reload with
+// unchanged content (control: no-op); change the file (same setting now ${VAR2}, another
+// setting, or ${VAR3} that is unset); Reload; the effective value read the same way must
+// follow the same rule as at startup, and equal what startup on the new file yields.
+func c29expansionReload(t *testing.T, run *verifkit.Run, rng *verifkit.Rand, f c29field, all bool) {
+	if !f.stringValued() || f.Dead {
+		return
+	}
+	k1, k2 := rng.Range(1, 4000), rng.Range(4001, 9000)
+	tag := strings.ToUpper(rng.Hex(4))
+	v1, v2, v3 := "VERIF_C29_R1_"+tag, "VERIF_C29_R2_"+tag, "VERIF_C29_R3_"+tag
+	var choices []string
+	if f.Meta != nil {
+		choices = f.Meta.Choices
+	}
+	form, plain := f.strForm(), "plain"
+	if f.Type.Kind() != reflect.String {
+		switch f.elementType() {
+		case "hostport":
+			form, plain = "hostport", "127.0.0.9:9"
+		case "url":
+			form, plain = "peerurl", "http://plain.example.com:8081"
+		default:
+			form = "free"
+		}
+		choices = nil
+	}
+	h1s, h2s := c29holes(form, choices, k1), c29holes(form, choices, k2)
+	hi := rng.Intn(len(h1s))
+	h1, h2 := h1s[hi], h2s[hi]
+	wrap := func(s string) string {
+		switch {
+		case f.Type.Kind() == reflect.String:
+			return fmt.Sprintf("%q", s)
+		case f.Type == reflect.TypeOf([]string{}):
+			return fmt.Sprintf("[%q, %q]", plain, s)
+		default:
+			return fmt.Sprintf("{plain: \"p\", verif: %q}", s)
+		}
+	}
+	fill := func(tpl, with string) string {
+		return fmt.Sprintf(tpl, repeat(with, strings.Count(tpl, "%s"))...)
+	}
+	env := map[string]string{v1: h1.val, v2: h2.val} // v3 stays unset
+	// another setting to change in the "other setting" variant
+	other := "Debugging:\n  DryRun: true\n"
+	if f.Group == "Debugging" {
+		other = "RefineryTelemetry:\n  AddCountsToRoot: true\n"
+	}
+	type variant struct {
+		name     string
+		second   string // file content at reload
+		expected string // expected text of the setting after the reload
+		sig      string
+	}
+	first := c29fileWith(f, wrap(fill(h1.tpl, "${"+v1+"}")), true)
+	variants := []variant{
+		{"same setting now references another set variable", c29fileWith(f, wrap(fill(h2.tpl, "${"+v2+"}")), true), fill(h2.tpl, h2.val), "set-variable-not-expanded"},
+		{"another setting changes, the reference stays", first + other, fill(h1.tpl, h1.val), "set-variable-not-expanded"},
+		{"same setting now references an unset variable", c29fileWith(f, wrap(fill(h1.tpl, "${"+v3+"}")), true), fill(h1.tpl, "${"+v3+"}"), "unset-variable-reference-altered"},
+	}
+	if !all {
+		drop := rng.Intn(len(variants))
+		variants = append(variants[:drop:drop], variants[drop+1:]...)
+	}
+
+	// the environment stays set from startup through the reloads, then is restored
+	for k, v := range env {
+		os.Setenv(k, v)
+	}
+	os.Unsetenv(v3)
+	defer func() {
+		for k := range env {
+			os.Unsetenv(k)
+		}
+	}()
+
+	for _, va := range variants {
+		noValidate := rng.Chance(0.35)
+		c29dirN++
+		dir := filepath.Join(t.TempDir(), fmt.Sprintf("r%d", c29dirN))
+		if err := os.MkdirAll(dir, 0o755); err != nil {
+			t.Fatal(err)
+		}
+		cp, rp := filepath.Join(dir, "config.yaml"), filepath.Join(dir, "rules.yaml")
+		os.WriteFile(cp, []byte(first), 0o644)
+		os.WriteFile(rp, []byte(c29rules), 0o644)
+		args := []string{"--config", cp, "--rules_config", rp}
+		if noValidate {
+			args = append(args, "--no-validate")
+		}
+		mk := func() Config {
+			o, err := NewCmdEnvOptions(args)
+			if err != nil {
+				t.Fatalf("c29: NewCmdEnvOptions: %v", err)
+			}
+			c, _ := NewConfig(o)
+			return c
+		}
+		cs := c29reloadCase{Setting: f.Path, NoValidate: noValidate, Env: env, Variant: va.name, First: first}
+		c := mk()
+		run.Eval(1)
+		run.Count("reload_expansion_cases", 1)
+		if c == nil {
+			t.Fatalf("c29: startup on %q rejected although the expansion group accepts the same shape", first)
+		}
+		calls := 0
+		c.RegisterReloadCallback(func(string, string) { calls++ })
+		want1, err := c29decode(f, wrap(fill(h1.tpl, h1.val)))
+		if err != nil {
+			t.Fatal(err)
+		}
+		read := func() string { return c29render(c29loaded(c).FieldByIndex(f.Index)) }
+		if got := read(); got != c29render(want1) {
+			cs.Expected, cs.Got = c29render(want1), got
+			run.Violation("C29/expansion/set-variable-not-expanded", fmt.Sprintf("%s at startup: effective %s, expected %s", f.Path, got, cs.Expected), cs)
+			os.RemoveAll(dir)
+			continue
+		}
+		// control: unchanged content, Reload is a no-op
+		if err := c.Reload(); err != nil {
+			cs.ReloadErr = err.Error()
+		}
+		if got := read(); got != c29render(want1) || calls != 0 {
+			cs.Expected, cs.Got = c29render(want1), got
+			run.Violation("C29/expansion/after-reload/unchanged-content-reload-not-a-no-op",
+				fmt.Sprintf("%s: Reload with unchanged content: effective %s (expected %s), %d listener calls (expected 0)", f.Path, got, cs.Expected, calls), cs)
+		}
+		// the change
+		cs.Second = va.second
+		tmp := cp + ".tmp"
+		os.WriteFile(tmp, []byte(va.second), 0o644)
+		os.Rename(tmp, cp)
+		ref := mk() // what startup makes of the new file, same environment
+		rerr := c.Reload()
+		if rerr != nil {
+			cs.ReloadErr = rerr.Error()
+		}
+		if ref == nil {
+			// startup refuses the new content (e.g. a literal ${VAR} in a constrained
+			// setting): the running config must stay as it was
+			run.Count("reload_expansion_new_content_rejected", 1)
+			if got := read(); got != c29render(want1) || calls != 0 {
+				cs.Expected, cs.Got = c29render(want1), got
+				run.Violation("C29/expansion/after-reload/rejected-content-changed-effective-value",
+					fmt.Sprintf("%s: startup rejects the new file but after Reload the effective value is %s (was %s), %d listener calls", f.Path, got, cs.Expected, calls), cs)
+			}
+			os.RemoveAll(dir)
+			continue
+		}
+		want2, err := c29decode(f, wrap(va.expected))
+		if err != nil {
+			t.Fatal(err)
+		}
+		got := read()
+		cs.Expected, cs.Got = c29render(want2), got
+		mode := "validate"
+		if noValidate {
+			mode = "no-validate"
+		}
+		run.Nontrivial("expansion-after-reload/" + f.Path + "/" + va.name + "/" + mode + "/" + h1.tpl)
+		switch {
+		case got == c29render(want2):
+			run.Count("reload_expansion_effective_values_checked", 1)
+			if calls != 1 {
+				run.Violation("C29/expansion/after-reload/listener-calls",
+					fmt.Sprintf("%s: %d listener calls for one applied change", f.Path, calls), cs)
+			}
+		case got == c29render(want1) && va.expected != fill(h1.tpl, h1.val):
+			run.Violation("C29/expansion/after-reload/accepted-change-not-in-force",
+				fmt.Sprintf("%s: startup accepts the new file, after Reload the effective value is still %s, expected %s (reload error: %q)", f.Path, got, cs.Expected, cs.ReloadErr), cs)
+		default:
+			run.Violation("C29/expansion/after-reload/"+va.sig,
+				fmt.Sprintf("%s (%s, %s): after Reload the effective value is %s, expected %s; startup on the same file and environment yields %s",
+					f.Path, va.name, mode, got, cs.Expected, c29render(c29loaded(ref).FieldByIndex(f.Index))), cs)
+		}
+		// the whole reloaded configuration equals what startup yields, through the getters too
+		if a, b := c29render(c29loaded(c)), c29render(c29loaded(ref)); a != b && got == c29render(want2) {
+			run.Violation("C29/expansion/after-reload/reloaded-config-differs-from-startup-on-same-file",
+				fmt.Sprintf("%s: the setting is right but the reloaded config differs from a fresh start on the same file", f.Path), cs)
+		}
+		c29getters(run, c29result{cfg: c}, "after-reload/"+f.Path)
+		os.RemoveAll(dir)
+	}
 }
 
 // ---- validation vs use ---------------------------------------------------------------------
